@@ -30,6 +30,9 @@ type c08Case struct {
 	Chains         []c08Chain        `json:"chains"`
 	AllowUnmatched bool              `json:"allow_unmatched"`
 	Headers        map[string]string `json:"headers"`
+	SameNames      bool              `json:"same_names,omitempty"` // all chains carry the same name
+	// Earlier: requests sent to the SAME filter instance before this one (the verdict must not depend on them)
+	Earlier []map[string]string `json:"earlier_requests,omitempty"`
 }
 
 // countingStore counts store calls (an OIDC filter that is reached writes its login state).
@@ -123,13 +126,39 @@ func c08Ref(c c08Case) (codes.Code, byte, int64) {
 
 var c08Pool = internal.NewTLSConfigPool(context.Background())
 
-func c08Impl(c c08Case) (code codes.Code, who byte, reached int64, msg string, err error) {
+type c08Instance struct {
+	f *server.ExtAuthZFilter
+	n *int64
+}
+
+func c08NewInstance(c c08Case) c08Instance {
 	cfg := &configv1.Config{AllowUnmatchedRequests: c.AllowUnmatched}
 	for i, ch := range c.Chains {
-		cfg.Chains = append(cfg.Chains, ch.proto(i))
+		fc := ch.proto(i)
+		if c.SameNames {
+			fc.Name = "chain"
+		}
+		cfg.Chains = append(cfg.Chains, fc)
 	}
-	var n int64
-	f := server.NewExtAuthZFilter(cfg, c08Pool, nil, countingFactory{countingStore{n: &n}})
+	n := new(int64)
+	return c08Instance{server.NewExtAuthZFilter(cfg, c08Pool, nil, countingFactory{countingStore{n: n}}), n}
+}
+
+func c08Impl(c c08Case) (code codes.Code, who byte, reached int64, msg string, err error) {
+	inst := c08NewInstance(c)
+	for _, e := range c.Earlier {
+		c2 := c
+		c2.Headers = e
+		_, _, _, _, _ = c08ImplOn(inst, c2)
+	}
+	return c08ImplOn(inst, c)
+}
+
+func c08ImplOn(inst c08Instance, c c08Case) (code codes.Code, who byte, reached int64, msg string, err error) {
+	f := inst.f
+	atomic.StoreInt64(inst.n, 0)
+	n := *inst.n
+	_ = n
 	h := map[string]string{}
 	for k, v := range c.Headers {
 		h[k] = v
@@ -138,7 +167,7 @@ func c08Impl(c c08Case) (code codes.Code, who byte, reached int64, msg string, e
 		Http: &envoy.AttributeContext_HttpRequest{Id: "1", Method: "GET", Scheme: "https", Host: "app.test", Path: "/x", Headers: h}}}}
 	resp, e := f.Check(context.Background(), req)
 	if e != nil {
-		return 0, 0, n, "", e
+		return 0, 0, atomic.LoadInt64(inst.n), "", e
 	}
 	code = codes.Code(resp.GetStatus().GetCode())
 	who = 'a'
@@ -159,12 +188,16 @@ func c08Impl(c c08Case) (code codes.Code, who byte, reached int64, msg string, e
 	case code != codes.OK:
 		who = 'd'
 	}
-	return code, who, n, resp.GetStatus().GetMessage(), nil
+	return code, who, atomic.LoadInt64(inst.n), resp.GetStatus().GetMessage(), nil
 }
 
 func c08Check(run *ev.Run, c c08Case) {
+	c08CheckOn(run, c08NewInstance(c), c)
+}
+
+func c08CheckOn(run *ev.Run, inst c08Instance, c c08Case) {
 	wc, ww, wr := c08Ref(c)
-	gc, gw, gr, _, err := c08Impl(c)
+	gc, gw, gr, _, err := c08ImplOn(inst, c)
 	if err != nil {
 		run.Violation("C08 check-error", err.Error(), c)
 		return
@@ -242,9 +275,22 @@ func c08Run(run *ev.Run) {
 			cl = []c08Chain{chains[k/(n*n)], chains[(k/n)%n], chains[k%n]}
 		}
 		for _, au := range []bool{false, true} {
-			for _, h := range headers {
-				c08Check(run, c08Case{Chains: cl, AllowUnmatched: au, Headers: h})
-				atomic.AddInt64(&evals, 1)
+			// one long-lived filter instance per configuration, as in the running service: the six requests are sent
+			// to it one after the other (forward, then backward on a second instance with equal chain names), so a
+			// verdict that depends on earlier requests is seen
+			for pass := 0; pass < 2; pass++ {
+				same := pass == 1
+				inst := c08NewInstance(c08Case{Chains: cl, AllowUnmatched: au, SameNames: same})
+				var earlier []map[string]string
+				for k := range headers {
+					h := headers[k]
+					if pass == 1 {
+						h = headers[len(headers)-1-k]
+					}
+					c08CheckOn(run, inst, c08Case{Chains: cl, AllowUnmatched: au, Headers: h, SameNames: same, Earlier: earlier})
+					earlier = append(earlier, h)
+					atomic.AddInt64(&evals, 1)
+				}
 			}
 		}
 		atomic.AddInt64(&lists, 1)
@@ -259,8 +305,11 @@ func c08Run(run *ev.Run) {
 		par.For(m*m*m*m, run.Expired, func(i int) {
 			cl := []c08Chain{red[i/(m*m*m)], red[(i/(m*m))%m], red[(i/m)%m], red[i%m]}
 			for _, au := range []bool{false, true} {
+				inst := c08NewInstance(c08Case{Chains: cl, AllowUnmatched: au})
+				var earlier []map[string]string
 				for _, h := range headers {
-					c08Check(run, c08Case{Chains: cl, AllowUnmatched: au, Headers: h})
+					c08CheckOn(run, inst, c08Case{Chains: cl, AllowUnmatched: au, Headers: h, Earlier: earlier})
+					earlier = append(earlier, h)
 					atomic.AddInt64(&evals, 1)
 				}
 			}
